@@ -39,11 +39,13 @@ func filterOracle(v url.Values) (g string, labelJSON string) {
 		return "(FOLabel " + gStr(label) + ")", string(lj[1 : len(lj)-1])
 	}
 	f := &jsonapi.Filter{}
-	if err := json.Unmarshal([]byte(val), f); err != nil {
-		return "FOErr", ""
-	}
-	mf, err := json.Marshal(f)
-	if err != nil {
+	var mf []byte
+	var err error
+	if p, _ := guard(func() {
+		if err = json.Unmarshal([]byte(val), f); err == nil {
+			mf, err = json.Marshal(f)
+		}
+	}); p || err != nil {
 		return "FOErr", ""
 	}
 	return "(FOFilter " + gStr(string(mf)) + ")", ""
@@ -494,7 +496,7 @@ func randRawURL(r *rng, hostile bool) string {
 			f = pick(r, []string{"t", "u", "empty"})
 		}
 		if i == 1 && r.chance(1, 2) {
-			f = pick(r, []string{"1", "abc", "a b", "é"})
+			f = pick(r, []string{"1", "abc", "a b", "é", ".", "..", "a/../b", " 1 "})
 			if hostile {
 				f += pick(r, urlReserved)
 			}
@@ -522,24 +524,25 @@ func randRawURL(r *rng, hostile bool) string {
 		case 2:
 			var rs []string
 			for j := r.intn(5); j > 0; j-- {
-				rs = append(rs, pick(r, []string{"a", "-a", "ab", "-b", "id", "-id", "n", "zz", "-", "title", ""}))
+				rs = append(rs, pick(r, []string{"a", "-a", "ab", "-b", "id", "-id", "n", "zz", "-", "title", "", "--a", "---id", "--", "-a-b", "a-"}))
 			}
 			ps = append(ps, "sort="+strings.Join(rs, ","))
 		case 3:
 			var is []string
 			for j := r.intn(4); j > 0; j-- {
-				is = append(is, pick(r, []string{"r", "rs", "self", "r.back", "r.back.r", "rs.owner", "self.self.self", "zz", "yy", "r.zz", "dangling", "dangling.x", "owner", "back", ""}))
+				is = append(is, pick(r, []string{"r", "rs", "self", "r.back", "r.back.r", "rs.owner", "self.self.self", "zz", "yy", "r.zz", "dangling", "dangling.x", "owner", "back", "", "r.", ".r", "r..back", ".", "rs.owner.", "r.back."}))
 			}
 			ps = append(ps, "include="+strings.Join(is, ","))
 		case 4:
-			v := pick(r, []string{"1", "0", "-5", "abc", "", "10", "9223372036854775808"})
+			v := pick(r, []string{"1", "0", "-5", "abc", "", "10", "9223372036854775808", "18446744073709551615", "18446744073709551616", "9223372036854775807", "-9223372036854775808", "-9223372036854775809", "+5", "007", "1e3", "0x10", "1_000"})
 			if hostile {
 				v += pick(r, urlReserved)
 			}
 			ps = append(ps, "page["+pick(r, []string{"number", "size", "foo", ""})+"]="+url.QueryEscape(v))
 		case 5:
 			v := pick(r, []string{"label", "", "la bel", `{"f":"a","o":"=","v":"x"}`, `{"o":"and","v":[{"f":"a","o":"=","v":"x #y"},{"o":"or","v":[]}]}`,
-				`{"f":"ab","o":"<","v":5,"c":"x"}`, `{"f":"a","o":"=","v":"a+b c"}`, `{"o":"or","v":[{"f":"a","o":"in","v":["1+1","100%&x=y;z?#/"]}]}`, "la+bel", "t\x7fb", "a\x01b", "b\xffad", "\u2028x", `{bad`, `{"o":"and","v":5}`, `a\nb`, `a\\b`, `{"f":"a","o":"=","v":null}`})
+				`{"f":"ab","o":"<","v":5,"c":"x"}`, `{"f":"a","o":"=","v":"a+b c"}`, `{"o":"or","v":[{"f":"a","o":"in","v":["1+1","100%&x=y;z?#/"]}]}`, "la+bel", "t\x7fb", "a\x01b", "b\xffad", "\u2028x", `{bad`, `{"o":"and","v":5}`, `a\nb`, `a\\b`, `{"f":"a","o":"=","v":null}`,
+				`{"o":"or","v":[null]}`, `{"o":"and","v":[null,{"f":"a","o":"=","v":"1"}]}`, `{"o":"not","v":null}`, `null`, `[]`, `{"o":"or","v":null}`, `{"o":"and","v":[[]]}`, `{"o":"not","v":{"o":"or","v":[null]}}`})
 			if hostile {
 				v += pick(r, urlReserved)
 			}
